@@ -70,3 +70,20 @@ Example C15_ex :
   eff_severity (overwrite_new a) [114]%N SWarning = SError /\ eff_severity (overwrite_new a) [115]%N SWarning = SOff.
 Proof. split; vm_compute; reflexivity. Qed.
 Print Assumptions C15_ex.
+
+(* "the file's language (by extension or configured language globs)": a language configured for the path
+   by languageGlobs is the file's language whatever the extension table says - so a rule of the language the
+   extension would give does not run there - and without a configured glob the extension decides *)
+Theorem C15_language_globs :
+  (forall g c b, from_path (Some g) c b = Some g) /\
+  (forall b, from_path None None b = b) /\
+  (forall a r globs g b,
+     g <> fr_lang r ->
+     applies a r {| ff_lang := from_path (Some g) None b; ff_globs := globs |} = false).
+Proof.
+  split; [reflexivity|]. split; [reflexivity|].
+  intros a r globs g b Hne. unfold applies. cbn [from_path ff_lang].
+  destruct (N.eqb g (fr_lang r)) eqn:E; [apply N.eqb_eq in E; contradiction|].
+  repeat (try rewrite andb_false_r; try rewrite andb_false_l). reflexivity.
+Qed.
+Print Assumptions C15_language_globs.
